@@ -152,7 +152,7 @@ func ReadEnvFile(filename string) (map[string]string, error) {
 	envs := make(map[string]string)
 	envscanner := bufio.NewScanner(f)
 	for envscanner.Scan() {
-		kv := strings.Split(envscanner.Text(), "=")
+		kv := strings.SplitN(envscanner.Text(), "=", 2)
 		if len(kv) < 2 {
 			if strings.TrimSpace(kv[0]) == "" {
 				continue
